@@ -28,10 +28,10 @@ PLANS = {
                 selftest=1, timeout=2600, deadline=2700),
         ],
         'thorough': [
-            leg('X', 'X', 320, opts={'ops': 12, 'p_model': 0.35}, weight=9,
+            leg('X', 'X', 320, opts={'ops': 12, 'p_model': 0.35, 'kmax': 21}, weight=9,
                 max_workers=8, selftest=4, timeout=7000, deadline=7200),
             leg('S', 'S', 320, opts={'ops': 8, 'p_model': 0.25, 'max_devices': 64,
-                                     'max_devices_model': 16}, weight=7,
+                                     'max_devices_model': 16, 'kmax': 14}, weight=7,
                 max_workers=5, selftest=4, timeout=7000, deadline=7200),
             leg('R', 'R', 60, opts={'events': 14}, weight=2, max_workers=3,
                 selftest=2, timeout=7000, deadline=7200),
@@ -124,8 +124,8 @@ PLANS = {
                 selftest=2, timeout=2600, deadline=2700),
         ],
         'thorough': [
-            leg('R', 'R', 640, opts={'events': 16, 'kmax': 10, 'max_steps': 48,
-                                     'p_long': 0.1, 'long_steps': 160},
+            leg('R', 'R', 640, opts={'events': 16, 'kmax': 12, 'max_steps': 48,
+                                     'p_long': 0.1, 'long_steps': 160, 'max_layers': 8},
                 weight=16, max_workers=16, selftest=4, timeout=7000, deadline=7200),
         ],
         'rule': (
@@ -171,7 +171,7 @@ PLANS = {
                 max_workers=3, selftest=1, timeout=2600, deadline=2700),
         ],
         'thorough': [
-            leg('R', 'R', 560, opts={'events': 16, 'kmax': 10}, weight=16,
+            leg('R', 'R', 560, opts={'events': 16, 'kmax': 12, 'max_layers': 8}, weight=16,
                 max_workers=13, selftest=4, timeout=7000, deadline=7200),
             leg('R32', 'R', 120, opts={'events': 12, 'max_steps': 12}, x64=False,
                 max_workers=3, selftest=2, timeout=7000, deadline=7200),
